@@ -95,3 +95,43 @@ Theorem C19_include_filter_exact :
 Proof. exact include_filter_exact. Qed.
 Print Assumptions C19_include_filter_exact.
 
+(* ---- along every history (Proofs/IgnoredHistory.v): with an exclusion configuration in
+   force, for histories of apply / forced apply / update at ANY API versions and any
+   converter satisfying [conv_wf], no record of any reachable state contains an ignored
+   field or anything beneath it (and the object stays well formed, the records keep
+   [records_inv]).  New on the way: reconciliation preserves [never_owned]. ---- *)
+From Coq Require Import Arith Lia.
+From SMD Require Import Model.Merge Model.Reconcile Proofs.IgnoredHistory Proofs.IgnoredHistoryExample.
+Open Scope string_scope.
+Theorem C19_never_owned_along_every_history :
+  forall (c : config) (v0 : string) (ops : list vop),
+         exclusion_config c ->
+         compare_ok_wf c ->
+         fs_ok_wf c ->
+         conv_wf c ->
+         Forall vop_ok ops ->
+         wf_value (snd (fst (vrun c v0 ops))) = true /\
+         records_inv (snd (vrun c v0 ops)) /\ never_owned c (snd (vrun c v0 ops)).
+Proof. exact never_owned_along_histories. Qed.
+Print Assumptions C19_never_owned_along_every_history.
+
+Theorem C19_history_example :
+  wf_value (snd (fst (vrun ig_config "v1" ig_ops))) = true /\
+         records_inv (snd (vrun ig_config "v1" ig_ops)) /\
+         never_owned ig_config (snd (vrun ig_config "v1" ig_ops)).
+Proof. exact ig_history_never_owns_ignored. Qed.
+Print Assumptions C19_history_example.
+
+Theorem C19_history_example_is_not_degenerate :
+  exists r1 r2 : mrec,
+           mf_get "m1" (snd (vrun ig_config "v1" ig_ops)) = Some r1 /\
+           mf_get "m2" (snd (vrun ig_config "v1" ig_ops)) = Some r2 /\
+           ps_empty (mr_set r1) = false /\
+           ps_empty (mr_set r2) = false /\
+           ps_has (PEField "mm" :: PEField "x" :: nil) (mr_set r1) = true /\
+           ps_has (PEField "mm" :: PEField "z" :: nil) (mr_set r2) = true /\
+           ps_has (PEField "aa" :: nil) (mr_set r1) = false /\
+           ps_has (PEField "aa" :: nil) (mr_set r2) = false.
+Proof. exact ig_history_not_degenerate. Qed.
+Print Assumptions C19_history_example_is_not_degenerate.
+
